@@ -35,9 +35,10 @@ def fr(x):
 def case_text(c):
     o = [f"case {c['id']}"]
     for i, k in enumerate(c["clocks"]):
-        o.append(f"clock {i} parent={'-' if k['parent'] is None else k['parent']} freq={fr(k['freq'])} name={k['name']} "
-                 f"rstname={k['rstname']} trig={k['trig']} psync={int(k['psync'])} rst={k['rst']} act={'H' if k['act'] else 'L'} "
-                 f"init={int(k['init'])} mrt={fr(k['mrt'])} mrc={k['mrc']}")
+        u = lambda key, f: "-" if k[key] is None else f(k[key])     # None = ClockConfig field left unset
+        o.append(f"clock {i} parent={'-' if k['parent'] is None else k['parent']} freq={u('freq', fr)} name={u('name', str)} "
+                 f"rstname={u('rstname', str)} trig={u('trig', str)} psync={u('psync', lambda b: str(int(b)))} rst={u('rst', str)} "
+                 f"act={u('act', lambda b: 'H' if b else 'L')} init={u('init', lambda b: str(int(b)))} mrt={fr(k['mrt'])} mrc={k['mrc']}")
     for i, p in enumerate(c["inputs"]):
         o.append(f"input {i} w={p['w']} clk={p['clk']}")
     for i, r in enumerate(c["regs"]):
@@ -63,9 +64,11 @@ def parse_cases(text):
         if tok[0] == "case":
             c = dict(id=tok[1], clocks=[], inputs=[], regs=[], order=[], rstev=[], stim=[], steps=0)
         elif tok[0] == "clock":
-            c["clocks"].append(dict(parent=None if kv["parent"] == "-" else int(kv["parent"]), freq=F(kv["freq"]),
-                                    name=int(kv["name"]), rstname=int(kv["rstname"]), trig=kv["trig"], psync=kv["psync"] == "1",
-                                    rst=kv["rst"], act=kv["act"] == "H", init=kv["init"] == "1", mrt=F(kv["mrt"]), mrc=int(kv["mrc"])))
+            u = lambda key, f: None if kv[key] == "-" else f(kv[key])
+            c["clocks"].append(dict(parent=None if kv["parent"] == "-" else int(kv["parent"]), freq=u("freq", F),
+                                    name=u("name", int), rstname=u("rstname", int), trig=u("trig", str), psync=u("psync", lambda x: x == "1"),
+                                    rst=u("rst", str), act=u("act", lambda x: x == "H"), init=u("init", lambda x: x == "1"),
+                                    mrt=F(kv["mrt"]), mrc=int(kv["mrc"])))
         elif tok[0] == "input":
             c["inputs"].append(dict(w=int(kv["w"]), clk=int(kv["clk"])))
         elif tok[0] == "reg":
@@ -88,10 +91,30 @@ def parse_cases(text):
 # independent oracle: clock tree facts, closed-form activation times, textbook register update
 # ----------------------------------------------------------------------------------------------
 
+INHERITED = dict(name=0, rstname=0, trig="R", psync=True, rst="S", act=True, init=True)   # attribute -> default of a fresh hlim clock
+
+
+def effective_clocks(raw):
+    """what the frontend leaves in each hlim clock: an unset ClockConfig field of a derived clock is the nearest
+    explicitly set value up the derivation chain, else the default; an unset multiplier is 1 (not inherited)"""
+    def eff(i, key):
+        k = raw[i]
+        if k[key] is not None:
+            return k[key]
+        return eff(k["parent"], key) if k["parent"] is not None else INHERITED[key]
+    out = []
+    for i, k in enumerate(raw):
+        e = dict(parent=k["parent"], freq=F(1) if k["freq"] is None else k["freq"], mrt=k["mrt"], mrc=k["mrc"])
+        for key in INHERITED:
+            e[key] = eff(i, key)
+        out.append(e)
+    return out
+
+
 class Tree:
     def __init__(self, c):
         self.c = c
-        self.k = c["clocks"]
+        self.k = effective_clocks(c["clocks"])
         self.n = len(self.k)
 
     def absfreq(self, i):
@@ -218,6 +241,9 @@ def oracle(c, stats=None):
             stats[k] = stats.get(k, 0) + 1
     T = Tree(c)
     out = [f"case {c['id']}"]
+    for i, k in enumerate(T.k):
+        out.append(f"E {i} trig={k['trig']} rst={k['rst']} act={'H' if k['act'] else 'L'} init={int(k['init'])} psync={int(k['psync'])} "
+                   f"name={k['name']} rstname={k['rstname']} f={fr(k['freq'])}")
     rel = [i for i in range(T.n) if T.relevant(i)]
     for i in rel:
         rs = T.rstsrc(i)
@@ -364,13 +390,15 @@ def gen_expr(rng, c, W, depth, regs_w, ins_w):
 
 
 def gen_case(rng, cid, steps, family=None):
-    family = family or rng.choice(["small", "small", "small", "mhz", "q7", "shift", "reset"])
+    family = family or rng.choice(["small", "small", "small", "mhz", "q7", "shift", "reset", "inherit", "inherit"])
     freqs = MHZ_FREQS if family == "mhz" else SMALL_FREQS
     clocks = []
     nroot = rng.choice([1, 2, 2, 3])
     nder = rng.choice([0, 0, 1, 1, 2, 3])
     if family == "q7":
         nroot, nder = rng.choice([1, 2]), rng.choice([1, 2])
+    if family == "inherit":
+        nroot, nder = rng.choice([1, 1, 2]), rng.choice([1, 2, 3, 3])
     names = 0
     for i in range(nroot + nder):
         root = i < nroot
@@ -378,11 +406,18 @@ def gen_case(rng, cid, steps, family=None):
         rst = rng.choice("SSAAN")
         if family == "reset":
             rst = rng.choice("SA")
+        if family == "inherit" and root:
+            rst = rng.choice("SAAN")
         init = True if rst == "N" else rng.random() < 0.5
         k = dict(parent=parent, freq=rng.choice(freqs) if root else rng.choice(MULTS), name=names, rstname=names,
                  trig=rng.choice("RRFB"), psync=True, rst=rst, act=rng.random() < 0.6, init=init,
                  mrt=F(0), mrc=0)
         names += 1
+        if family == "inherit" and root:      # parents with NON-default attributes: active low, falling / dual edge, no init
+            k["act"] = rng.random() < 0.25
+            k["trig"] = rng.choice("RFFB")
+            if rst != "N":
+                k["init"] = rng.random() < 0.4
         if not root:
             pk = clocks[parent]
             if family == "q7":
@@ -409,6 +444,34 @@ def gen_case(rng, cid, steps, family=None):
                 a = clocks[a]["parent"]
             if ok:
                 k["psync"] = False
+    # Unset optional ClockConfig fields (None): the frontend must then inherit them from the parent / default them.
+    #  * every family: a field whose explicit value equals what would be inherited anyway is dropped with probability 1/2
+    #    (the design stays the same, only the way it is written changes);
+    #  * family "inherit": derived clocks additionally leave most fields unset whatever their value was, so the effective
+    #    clock is whatever the chain above provides (validity is re-checked on the effective values by valid_case).
+    for i, k in enumerate(clocks):
+        par = clocks[k["parent"]] if k["parent"] is not None else None
+        k["_explicit"] = dict(k)
+    for i, k in enumerate(clocks):
+        ex = k["_explicit"]
+        par = clocks[k["parent"]]["_explicit"] if k["parent"] is not None else None
+        for key in INHERITED:
+            if par is None and key in ("name", "rstname"):
+                continue
+            inherited = par[key] if par is not None else INHERITED[key]
+            if family == "inherit" and par is not None and rng.random() < 0.6:
+                k[key] = None
+            elif ex[key] == inherited and rng.random() < 0.5:
+                k[key] = None
+        if par is not None and ex["freq"] == 1 and rng.random() < 0.5:
+            k["freq"] = None
+    if family == "inherit":
+        # the explicit values of the ancestors changed what descendants inherit: recompute for the rest of the generator
+        eff = effective_clocks([{kk: vv for kk, vv in k.items() if kk != "_explicit"} for k in clocks])
+        for k, e in zip(clocks, eff):
+            k["_explicit"] = e
+    for k in clocks:
+        del k["_explicit"]
     W = rng.choice([1, 2, 3, 3, 4, 4, 8])
     nreg = rng.choice([2, 3, 4, 5, 6])
     if family == "shift":
@@ -427,7 +490,10 @@ def gen_case(rng, cid, steps, family=None):
         clk = rng.randrange(len(clocks))
         if family == "q7":
             clk = rng.choice([i for i in range(len(clocks))])
-        rv = None if rng.random() < 0.2 else rbits(rng, W, 0.05)
+        der = [i for i, k in enumerate(clocks) if k["parent"] is not None]
+        if family == "inherit" and der and rng.random() < 0.7:
+            clk = rng.choice(der)
+        rv = None if rng.random() < (0.1 if family == "inherit" else 0.2) else rbits(rng, W, 0.05)
         if family == "shift":
             # shift chain / ring with feedback through the last stage (johnson / lfsr style), across whatever clocks
             if r == 0:
@@ -497,8 +563,11 @@ def valid_case(c):
     T = Tree(c)
     if not T.psync_assert_ok():
         return False
-    for k in c["clocks"]:
+    for i, k in enumerate(T.k):
         if k["rst"] == "N" and not k["init"]:
+            return False        # HCL_DESIGNCHECK in Clock::applyConfig (evaluated on the effective values)
+        raw = c["clocks"][i]
+        if raw["parent"] is None and (raw["freq"] is None or raw["name"] is None or raw["rstname"] is None):
             return False
     return True
 
@@ -520,7 +589,7 @@ def nontrivial_key(c, lines):
             for e in cpart.split(","):
                 pins.add(e.split(":")[0])
     T = Tree(c)
-    multi_edge = any(len({c["clocks"][i]["trig"] for i in range(T.n) if T.relevant(i) and T.pinsrc(i) == p}) > 1 for p in T.clock_pins())
+    multi_edge = any(len({T.k[i]["trig"] for i in range(T.n) if T.relevant(i) and T.pinsrc(i) == p}) > 1 for p in T.clock_pins())
     if len(changed) >= 2 and (len(pins) >= 2 or multi_edge):
         return hashlib.sha1("\n".join(tl).encode()).hexdigest()
     return None
@@ -746,12 +815,12 @@ def main():
         hist["family"][c.get("family", "corpus")] = hist["family"].get(c.get("family", "corpus"), 0) + 1
         for i in range(T.n):
             if T.relevant(i):
-                k = c["clocks"][i]
+                k = T.k[i]
                 hist["trig"][k["trig"]] = hist["trig"].get(k["trig"], 0) + 1
                 hist["rst"][k["rst"] + ("H" if k["act"] else "L")] = hist["rst"].get(k["rst"] + ("H" if k["act"] else "L"), 0) + 1
                 if k["parent"] is not None:
                     hist["derived"] += 1
-                if T.pinsrc(i) != i and k["trig"] != c["clocks"][T.pinsrc(i)]["trig"]:
+                if T.pinsrc(i) != i and k["trig"] != T.k[T.pinsrc(i)]["trig"]:
                     hist["shared_pin_opposite_edge"] += 1
         for r in c["regs"]:
             if r["d"] and any(("r%d" % j) in r["d"] and c["regs"][j]["clk"] != r["clk"] for j in range(len(c["regs"]))):
@@ -791,7 +860,8 @@ def main():
     rep.cov["evaluations"] = len(cases)
     rep.cov["distinct_nontrivial"] = len(nontrivial)
     rep.cov["rule"] = ("cases = corpus + seeded random clock trees (1-3 roots, 0-3 derived clocks; frequencies p/q or MHz-range; trigger R/F/both; "
-                       "reset sync/async/none x active high/low; initializeRegs on/off; minResetTime/minResetCycles; shared pins with opposite edge) x "
+                       "reset sync/async/none x active high/low; initializeRegs on/off; minResetTime/minResetCycles; shared pins with opposite edge; "
+                       "clocks created through the frontend with random subsets of the optional ClockConfig fields left unset = inherited, effective attributes read back) x "
                        "register networks (counters, shift rings, xor feedback, cross-domain copies through Node_CDC, enables from pins/register bits/constants incl. X) x "
                        "process stimulus and injected reset events on a quarter-period grid; non-trivial = at least two registers change value after power-on and "
                        "(two clock pins toggle or one pin drives domains with different trigger edges); distinct = different implementation log")
